@@ -56,9 +56,9 @@ def isvalid_rev(s: str):
 class Revision(UserString):
     """Internal revision class storing revisions as strings and comparing as integers."""
 
-    # parent __hash__() isn't inherited when __eq__() is defined in the child class
-    # https://docs.python.org/3/reference/datamodel.html#object.__hash__
-    __hash__ = UserString.__hash__
+    # revisions compare as integers ("", "0" and "00" are equal), so they must hash as integers
+    def __hash__(self):
+        return hash(self._revint)
 
     def __init__(self, *args, **kwargs):
         super().__init__(*args, **kwargs)
